@@ -60,8 +60,11 @@ func numTok(tok string) Val {
 }
 
 func jsonStr(s string) string {
-	b, _ := json.Marshal(s)
-	return string(b)
+	var sb strings.Builder
+	enc := json.NewEncoder(&sb)
+	enc.SetEscapeHTML(false) // keep & < > literal: the documents must not depend on optional escapes
+	_ = enc.Encode(s)
+	return strings.TrimSuffix(sb.String(), "\n")
 }
 
 // EvGen generates events of one schema family.
